@@ -41,6 +41,9 @@ Further ingredients
     `yield from <itself>(child)`) produces, in `for entry in walk():`, the values `entry.path` (a path of its own, guarded by each
     yield's guard) and `entry.flag` (atom REC.flag, fixed per yield to the truth of the yielded expression); the same holds inside a
     helper whose parameter receives such a record at every call site;
+    a field that is None for one kind of entry (`entry.source_file is None`) is the atom REC.<f>.isnone, a tag field compared with a
+    literal (`entry.kind is Kind.DIRECTORY`, `== "dir"`) the atom REC.<f>==<literal>, both fixed per yield; `for path, flag in walk()`
+    unpacks NamedTuple records in field order; a value assigned on several branches that meet again is derived from all assignments;
   * `x is None` / `x is not None` where x is the result of a repo helper that returns None on some paths: "not None" is the
     disjunction of the path conditions of the helper's other `return <value>` statements (conjoined with an atom of its own unless
     the value plainly is an object: constructor call, literal, `f.read()`, str(...), ...);
@@ -585,6 +588,7 @@ class Scan:
         self.used_records: dict[str, object] = {}
         self.prefix_bugs: list[str] = []
         self.walk_notes: list[str] = []
+        self.rec_cmp: dict[str, set[str]] = {}  # tag fields of walker records and the literals they are compared with
 
     def facts(self, g: FuncInfo) -> Facts:
         if g.fq not in self._facts:
@@ -759,6 +763,19 @@ class Scan:
                     if isinstance(b, ast.Constant) and isinstance(b.value, bool):
                         t = self.F(g, a, R, env, depth)
                         return t if (isinstance(op, ast.Eq)) == b.value else f_not(t)
+                    # `entry.kind == "dir"` / `entry.kind is Kind.DIRECTORY`: a tag field of the tracked record compared with a literal
+                    rf = self._tracked_record_field(g, a, R)
+                    if rf is not None and _literal_text(b) is not None:
+                        self.rec_cmp.setdefault(rf, set()).add(_literal_text(b))
+                        at = atom(f"REC.{rf}=={_literal_text(b)}")
+                        return at if isinstance(op, ast.Eq) else f_not(at)
+            if isinstance(op, (ast.Is, ast.IsNot)):
+                for a, b in ((left, right), (right, left)):
+                    rf = self._tracked_record_field(g, a, R)
+                    if rf is not None and isinstance(b, ast.Attribute) and _literal_text(b) is not None:
+                        self.rec_cmp.setdefault(rf, set()).add(_literal_text(b))
+                        at = atom(f"REC.{rf}=={_literal_text(b)}")
+                        return at if isinstance(op, ast.Is) else f_not(at)
             return self.opaque(g, e, False)
         if isinstance(e, (ast.Call, ast.BinOp)):
             t = self.anc(g, e, R)
@@ -1180,6 +1197,19 @@ class Scan:
                         if isinstance(ye, ast.Constant):
                             fixed.append(n2 if ye.value is None else f_not(n2))
                             fixed.append(a2 if ye.value else f_not(a2))
+                            for lit in sorted(self.rec_cmp.get(f2, ())):
+                                if lit.startswith("const:"):
+                                    c2 = atom(f"REC.{f2}=={lit}")
+                                    fixed.append(c2 if lit == _literal_text(ye) else f_not(c2))
+                            continue
+                        if _literal_text(ye) is not None:
+                            # a tag (`Kind.DIRECTORY`): equal to the literals it is compared with iff they are the same member
+                            for lit in sorted(self.rec_cmp.get(f2, ())):
+                                c2 = atom(f"REC.{f2}=={lit}")
+                                if lit == _literal_text(ye):
+                                    fixed.append(c2)
+                                elif lit.rsplit(".", 1)[0] == _literal_text(ye).rsplit(".", 1)[0]:
+                                    fixed.append(f_not(c2))
                             continue
                         plain = self._plain_path(w, ye)
                         if plain or (isinstance(ye, ast.Call) and self.T.ctor_class(w, ye) is not None) or isinstance(ye, (ast.Compare, ast.JoinedStr, ast.List, ast.Tuple, ast.Dict, ast.Set)) or (isinstance(ye, ast.UnaryOp) and isinstance(ye.op, ast.Not)):
@@ -1202,6 +1232,12 @@ class Scan:
                 v = y.value
                 elts = list(v.elts) if isinstance(v, ast.Tuple) else [v]
                 telts = list(target.elts) if isinstance(target, (ast.Tuple, ast.List)) else [target]
+                if isinstance(v, ast.Call) and len(telts) > 1:
+                    # `for path, is_directory in walk()` where the walker yields NamedTuple records: unpacked in field order
+                    rf = self.record_fields(w, v)
+                    ci = self.T.ctor_class(w, v) if rf is not None else None
+                    if ci is not None and any(b.rsplit(".", 1)[-1] == "NamedTuple" for b in ci.bases):
+                        elts = list(rf.values())
                 if v is None or len(elts) != len(telts):
                     outs.append(local)
                     continue
@@ -1521,6 +1557,15 @@ class Scan:
 
 _CANON = [EXCL, PY, ISDIR, ISFILE, ANC, RECL]
 from core.cfg import MUTATORS as _MUTATORS  # noqa: E402
+
+
+def _literal_text(e: ast.expr) -> str | None:
+    """Canonical text of a literal tag: a str / int constant, or a dotted member access such as `Kind.DIRECTORY` (enum member)."""
+    if isinstance(e, ast.Constant) and isinstance(e.value, (str, int)) and not isinstance(e.value, bool):
+        return f"const:{e.value!r}"
+    if isinstance(e, ast.Attribute) and isinstance(e.value, (ast.Name, ast.Attribute)) and e.attr.isupper():
+        return norm(e)
+    return None
 
 
 def _names(e: ast.AST) -> set[str]:
